@@ -19,7 +19,7 @@ from . import common
 
 ID = 'C11'
 LEVEL = 'exploration'
-QUOTA = {'quick': 520, 'thorough': 6000}
+QUOTA = {'quick': 800, 'thorough': 6000}
 BUDGET = {'quick': 100, 'thorough': 900}
 RULE = ('scenario = generated reference statistics (cluster sizes from 1, zero-variance genes, identical clusters) x '
         'threshold setting (each strict threshold above its floor) x route (direct with exact or approximate penetrance, '
